@@ -391,7 +391,8 @@ static void burl_append_encode_nde (buffer * const b, const char * const str, co
     unsigned int n1, n2;
     int j = 0;
     for (unsigned int i = 0; i < len; ++i, ++j) {
-        if (str[i]=='%' && li_cton(str[i+1], n1) && li_cton(str[i+2], n2)) {
+        if (str[i]=='%' && i+2 < len
+            && li_cton(str[i+1], n1) && li_cton(str[i+2], n2)) {
             const unsigned int x = (n1 << 4) | n2;
             if (burl_is_unreserved((int)x)) {
                 p[j] = (char)x;
@@ -425,7 +426,8 @@ static void burl_append_encode_psnde (buffer * const b, const char * const str, 
     unsigned int n1, n2;
     int j = 0;
     for (unsigned int i = 0; i < len; ++i, ++j) {
-        if (str[i]=='%' && li_cton(str[i+1], n1) && li_cton(str[i+2], n2)) {
+        if (str[i]=='%' && i+2 < len
+            && li_cton(str[i+1], n1) && li_cton(str[i+2], n2)) {
             const unsigned int x = (n1 << 4) | n2;
             if (burl_is_unreserved((int)x)) {
                 p[j] = (char)x;
